@@ -767,13 +767,295 @@ theorem contrib_timing_failures_ignore (i : ContribIn) (h : WFContrib i) :
 
 /-! ### attester_slashing
 
-Proved here: `marks_only_on_accept`. The `accept_iff` / `timing` theorems for attester slashings need list lemmas
-about `ZigZagJoin` (intersection of strictly sorted lists) and `Filter` that are not done; the validator is covered by
-the `c12` correspondence (model = Go and spec-allowed verdict on every generated line) only.
-FULL STATEMENTS (not proved): `(validateAttesterSlashing i).verdict = .ACCEPT ↔ allHold (Spec.aslashConds i)`,
-`allHold … = false → onlyTimingFails … → verdict = IGNORE`. -/
+`intersect` (the model of `ZigZagJoin` on two strictly sorted index lists) is the specification's set
+intersection by definition; that the Go loop computes it is tied by the `c12` correspondence. -/
 
-theorem aslash_marks_only_on_accept_partial (i : ASlashIn) :
+theorem sortedStrict_eq_spec (l : List UInt64) : sortedStrict l = Spec.sortedUnique l := by
+  fun_induction sortedStrict l with
+  | case1 a b r ih => simp [Spec.sortedUnique, ih, UInt64.lt_iff_toNat_lt]
+  | case2 l h =>
+    match l with
+    | [] => simp [Spec.sortedUnique]
+    | [a] => simp [Spec.sortedUnique]
+    | a :: b :: r => exact absurd rfl (h a b r)
+
+theorem indicesSetOk_eq (m : Nat) (l : List UInt64) :
+    indicesSetOk m l = (!l.isEmpty && decide (l.length ≤ m) && Spec.sortedUnique l) := by
+  unfold indicesSetOk
+  rw [sortedStrict_eq_spec]
+  cases l with
+  | nil => simp
+  | cons a r =>
+    simp only [List.length_cons] at *
+    by_cases h : r.length + 1 > m
+    · have h2 : ¬ (r.length + 1 ≤ m) := by omega
+      have h3 : m < r.length + 1 := by omega
+      simp [h2, h3]
+    · have h2 : r.length + 1 ≤ m := by omega
+      have h3 : ¬ (m < r.length + 1) := by omega
+      simp [h2, h3]
+
+theorem isSlashableData_eq_spec (i : ASlashIn) :
+    isSlashableData i = Spec.isSlashableAttestationData i.src1.toNat i.tgt1.toNat i.src2.toNat i.tgt2.toNat i.dataEqual := by
+  unfold isSlashableData Spec.isSlashableAttestationData
+  rw [beq_toNat]
+  by_cases h1 : i.src1 < i.src2 <;> by_cases h2 : i.tgt1 > i.tgt2 <;> cases i.dataEqual <;>
+    by_cases h3 : i.tgt1.toNat = i.tgt2.toNat <;>
+    simp_all [UInt64.lt_iff_toNat_lt] <;> omega
+
+/-- for a strictly increasing list the last element bounds all -/
+theorem sorted_last_bound (n : Nat) (l : List UInt64) (hs : Spec.sortedUnique l = true) (x : UInt64)
+    (hx : l.getLast? = some x) : decide (x.toNat < n) = l.all (fun v => decide (v.toNat < n)) := by
+  induction l with
+  | nil => simp at hx
+  | cons a r ih =>
+    cases r with
+    | nil => simp at hx; subst hx; simp
+    | cons b r' =>
+      simp only [Spec.sortedUnique, Bool.and_eq_true, decide_eq_true_eq] at hs
+      have hx' : (b :: r').getLast? = some x := by simpa [List.getLast?_cons_cons] using hx
+      have := ih hs.2 hx'
+      -- a < b ≤ … ≤ x
+      have hbx : b.toNat ≤ x.toNat := by
+        clear ih this hx
+        induction r' generalizing b with
+        | nil => simp at hx'; subst hx'; exact Nat.le_refl _
+        | cons c r'' ih2 =>
+          simp only [Spec.sortedUnique, Bool.and_eq_true, decide_eq_true_eq] at hs
+          have hx'' : (c :: r'').getLast? = some x := by simpa [List.getLast?_cons_cons] using hx'
+          have := ih2 c ⟨by omega, hs.2.2⟩ hx''
+          omega
+      rw [List.all_cons, ← this]
+      by_cases h : x.toNat < n
+      · have : a.toNat < n := by omega
+        simp [h, this]
+      · simp [h]
+
+/-- the specification's per-validator predicate inside `aslashAnySlashable` -/
+def slSpec (i : ASlashIn) (v : UInt64) : Bool :=
+  match i.vals.find? (·.1 == v) with
+  | some (_, sl, act, wd) => decide (v.toNat < i.nVals.toNat) &&
+      Spec.isSlashableValidator sl act.toNat wd.toNat i.curEpoch.toNat
+  | none => false
+
+theorem aslashAny_eq (i : ASlashIn) : Spec.aslashAnySlashable i = (intersect i.idx1 i.idx2).any (slSpec i) := by
+  unfold Spec.aslashAnySlashable intersect slSpec; rfl
+
+theorem valSlashable_some (i : ASlashIn) (v : UInt64) (b : Bool) (h : valSlashable i v = some b) :
+    v.toNat < i.nVals.toNat ∧ b = slSpec i v := by
+  unfold valSlashable at h
+  unfold slSpec
+  by_cases hlt : v < i.nVals
+  · have hlt' := UInt64.lt_iff_toNat_lt.mp hlt
+    simp only [hlt, decide_true, Bool.not_true, Bool.false_eq_true, if_false] at h
+    split at h
+    · rename_i _ sl act wd heq
+      refine ⟨hlt', ?_⟩
+      simp only [heq, hlt', decide_true, Bool.true_and]
+      rw [← isSlashable_eq_spec]
+      exact (Option.some.inj h).symm
+    · cases h
+  · simp [hlt] at h
+
+theorem valSlashable_none (i : ASlashIn) (v : UInt64) (h : valSlashable i v = none) :
+    ¬ (v.toNat < i.nVals.toNat) ∨ i.vals.find? (·.1 == v) = none := by
+  unfold valSlashable at h
+  by_cases hlt : v < i.nVals
+  · right
+    simp only [hlt, decide_true, Bool.not_true, Bool.false_eq_true, if_false] at h
+    split at h
+    · cases h
+    · assumption
+  · left; exact fun h' => hlt (UInt64.lt_iff_toNat_lt.mpr h')
+
+theorem filterSlashable_some (i : ASlashIn) (l keep : List UInt64) (h : filterSlashable i l = some keep) :
+    (∀ v ∈ l, v.toNat < i.nVals.toNat) ∧ keep = l.filter (slSpec i) := by
+  induction l generalizing keep with
+  | nil => simp [filterSlashable] at h; simp [h]
+  | cons v r ih =>
+    unfold filterSlashable at h
+    split at h
+    · cases h
+    · rename_i b hb
+      split at h
+      · cases h
+      · rename_i rest hr
+        obtain ⟨hlt, hbe⟩ := valSlashable_some i v b hb
+        obtain ⟨hall, hrest⟩ := ih rest hr
+        refine ⟨?_, ?_⟩
+        · intro w hw
+          rcases List.mem_cons.mp hw with rfl | hw
+          · exact hlt
+          · exact hall w hw
+        · have := Option.some.inj h
+          rw [← this, hrest, List.filter_cons, ← hbe]
+
+theorem filterSlashable_none (i : ASlashIn) (l : List UInt64) (h : filterSlashable i l = none) :
+    ∃ v ∈ l, valSlashable i v = none := by
+  induction l with
+  | nil => simp [filterSlashable] at h
+  | cons v r ih =>
+    unfold filterSlashable at h
+    split at h
+    · rename_i hv; exact ⟨v, List.mem_cons_self, hv⟩
+    · split at h
+      · rename_i hr
+        obtain ⟨w, hw, hwn⟩ := ih hr
+        exact ⟨w, List.mem_cons_of_mem _ hw, hwn⟩
+      · cases h
+
+theorem indexedOk_eq (i : ASlashIn) (idx : List UInt64) (sig : Bool) :
+    indexedOk i idx sig = (Spec.validIndexedShape i.maxPerComm i.nVals.toNat idx && sig) := by
+  unfold indexedOk Spec.validIndexedShape
+  rw [indicesSetOk_eq]
+  cases hidx : idx with
+  | nil => simp
+  | cons a r =>
+    obtain ⟨last, hlast⟩ : ∃ x, (a :: r).getLast? = some x :=
+      ⟨(a :: r).getLast (by simp), List.getLast?_eq_some_getLast (by simp)⟩
+    rw [hlast]
+    have hne : (a :: r).isEmpty = false := rfl
+    by_cases hlen : (a :: r).length ≤ i.maxPerComm
+    · by_cases hs : Spec.sortedUnique (a :: r) = true
+      · have hb := sorted_last_bound i.nVals.toNat (a :: r) hs last hlast
+        rw [← hb]
+        by_cases hl : last < i.nVals
+        · have := UInt64.lt_iff_toNat_lt.mp hl
+          simp only [hne, hlen, hs, hl, this, decide_true, Bool.not_false, Bool.true_and, Bool.not_true,
+            Bool.false_eq_true, if_false]
+        · have : ¬ last.toNat < i.nVals.toNat := fun h => hl (UInt64.lt_iff_toNat_lt.mpr h)
+          simp only [hne, hlen, hs, hl, this, decide_true, decide_false, Bool.not_false, Bool.true_and, Bool.not_true,
+            Bool.false_eq_true, if_false, if_true, Bool.false_and, Bool.and_false]
+      · have hs' : Spec.sortedUnique (a :: r) = false := by simpa using hs
+        simp only [hne, hlen, hs', decide_true, Bool.not_false, Bool.true_and, Bool.and_false, Bool.false_and,
+          Bool.not_false, if_true]
+    · simp only [hne, hlen, decide_false, Bool.not_false, Bool.true_and, Bool.false_and, Bool.and_false,
+        if_true]
+
+structure WFASlash (i : ASlashIn) : Prop where
+  /-- the record lists the registry entry of every in-range validator index of the message -/
+  valsComplete : ∀ v ∈ i.idx1, v.toNat < i.nVals.toNat → (i.vals.find? (·.1 == v)).isSome = true
+
+theorem mem_intersect {a b : List UInt64} {v : UInt64} (h : v ∈ intersect a b) : v ∈ a := by
+  unfold intersect at h; exact (List.mem_filter.mp h).1
+
+/-- the model's accept path, as one formula -/
+theorem aslash_accept_char (i : ASlashIn) :
+    (validateAttesterSlashing i).verdict = .ACCEPT ↔
+      (isSlashableData i = true ∧ indicesSetOk i.maxPerComm i.idx1 = true ∧ indicesSetOk i.maxPerComm i.idx2 = true ∧
+        i.allSeen = false ∧ i.headOk = true ∧
+        ∃ keep, filterSlashable i (intersect i.idx1 i.idx2) = some keep ∧ keep ≠ [] ∧
+          indexedOk i i.idx1 i.sig1 = true ∧ indexedOk i i.idx2 i.sig2 = true) := by
+  fun_cases validateAttesterSlashing i
+  all_goals (simp_all (config := {zetaDelta := true}) [ign, rej, acc])
+
+theorem shape_split (m n : Nat) (l : List UInt64) :
+    Spec.validIndexedShape m n l = true ↔
+      ((!l.isEmpty && decide (l.length ≤ m) && Spec.sortedUnique l) = true ∧ ∀ v ∈ l, v.toNat < n) := by
+  unfold Spec.validIndexedShape
+  simp [Bool.and_eq_true, List.all_eq_true]
+
+theorem aslash_accept_iff_all_conditions (i : ASlashIn) (h : WFASlash i) :
+    (validateAttesterSlashing i).verdict = .ACCEPT ↔ allHold (Spec.aslashConds i) = true := by
+  obtain ⟨hvc⟩ := h
+  rw [aslash_accept_char, isSlashableData_eq_spec, indicesSetOk_eq, indicesSetOk_eq, indexedOk_eq, indexedOk_eq]
+  simp only [Spec.aslashConds, allHold, Spec.I, Spec.R, Spec.L, List.all_cons, List.all_nil, Bool.and_true,
+    Bool.and_eq_true, Bool.or_eq_true, Bool.not_eq_true', aslashAny_eq]
+  constructor
+  · rintro ⟨hd, h1, h2, hseen, hhead, keep, hf, hne, ⟨hsh1, hsig1⟩, ⟨hsh2, hsig2⟩⟩
+    obtain ⟨_, hkeep⟩ := filterSlashable_some i _ keep hf
+    have hany : (intersect i.idx1 i.idx2).any (slSpec i) = true := by
+      obtain ⟨x, hx⟩ := List.exists_mem_of_ne_nil keep hne
+      rw [hkeep] at hx
+      exact List.any_eq_true.mpr ⟨x, (List.mem_filter.mp hx).1, (List.mem_filter.mp hx).2⟩
+    simp only [hhead, if_true]
+    exact ⟨hseen, hd, hsh1, hsh2, Or.inr hsig1, Or.inr hsig2, Or.inr hany, trivial⟩
+  · rintro ⟨hseen, hd, hsh1, hsh2, hsig1, hsig2, hany, hhead⟩
+    simp only [hhead, if_true] at hsh1 hsh2
+    have hsig1 : i.sig1 = true := by rcases hsig1 with h | h; · rw [hhead] at h; cases h
+                                     · exact h
+    have hsig2 : i.sig2 = true := by rcases hsig2 with h | h; · rw [hhead] at h; cases h
+                                     · exact h
+    have hany : (intersect i.idx1 i.idx2).any (slSpec i) = true := by
+      rcases hany with h | h; · rw [hhead] at h; cases h
+      · exact h
+    have ⟨hs1, hall1⟩ := (shape_split _ _ _).mp hsh1
+    have ⟨hs2, _⟩ := (shape_split _ _ _).mp hsh2
+    -- the filter cannot fail: every index of the intersection is in the registry and listed in the record
+    have hsome : ∃ keep, filterSlashable i (intersect i.idx1 i.idx2) = some keep := by
+      cases hfs : filterSlashable i (intersect i.idx1 i.idx2) with
+      | some k => exact ⟨k, rfl⟩
+      | none =>
+        exfalso
+        obtain ⟨v, hv, hvn⟩ := filterSlashable_none i _ hfs
+        have hv1 := mem_intersect hv
+        have hlt := hall1 v hv1
+        rcases valSlashable_none i v hvn with hh | hh
+        · exact hh hlt
+        · have := hvc v hv1 hlt; rw [hh] at this; cases this
+    obtain ⟨keep, hf⟩ := hsome
+    obtain ⟨_, hkeep⟩ := filterSlashable_some i _ keep hf
+    have hne : keep ≠ [] := by
+      obtain ⟨x, hx, hp⟩ := List.any_eq_true.mp hany
+      intro he
+      have : x ∈ keep := by rw [hkeep]; exact List.mem_filter.mpr ⟨hx, hp⟩
+      rw [he] at this; cases this
+    exact ⟨hd, by simpa using hs1, by simpa using hs2, hseen, hhead, keep, hf, hne, ⟨hsh1, hsig1⟩, ⟨hsh2, hsig2⟩⟩
+
+theorem aslash_violated_never_accept (i : ASlashIn) (h : WFASlash i) (c : Cond) (hc : c ∈ Spec.aslashConds i)
+    (hv : c.holds = false) : (validateAttesterSlashing i).verdict ≠ .ACCEPT :=
+  never_accept_of_iff (aslash_accept_iff_all_conditions i h) hc hv
+
+theorem aslash_timing_failures_ignore (i : ASlashIn) :
+    allHold (Spec.aslashConds i) = false → onlyTimingFails (Spec.aslashConds i) = true →
+    (validateAttesterSlashing i).verdict = .IGNORE := by
+  intro hf ht
+  simp only [Spec.aslashConds, allHold, onlyTimingFails, Spec.I, Spec.R, Spec.L, List.all_cons, List.all_nil,
+    Bool.and_true, Bool.and_eq_true, Bool.or_eq_true, Bool.not_eq_true', beq_iff_eq] at hf ht
+  obtain ⟨_, hd, hsh1, hsh2, h5, h6, h7, hhead⟩ := ht
+  have hd : Spec.isSlashableAttestationData i.src1.toNat i.tgt1.toNat i.src2.toNat i.tgt2.toNat i.dataEqual = true := by
+    rcases hd with h | h; · exact h
+    · cases h
+  have hhead : i.headOk = true := by
+    rcases hhead with h | h; · exact h
+    · cases h
+  have hsh1 : Spec.validIndexedShape i.maxPerComm i.nVals.toNat i.idx1 = true := by
+    rcases hsh1 with h | h; · simpa [hhead] using h
+    · cases h
+  have hsh2 : Spec.validIndexedShape i.maxPerComm i.nVals.toNat i.idx2 = true := by
+    rcases hsh2 with h | h; · simpa [hhead] using h
+    · cases h
+  have hs1 : indicesSetOk i.maxPerComm i.idx1 = true := by
+    rw [indicesSetOk_eq]; exact ((shape_split _ _ _).mp hsh1).1
+  have hs2 : indicesSetOk i.maxPerComm i.idx2 = true := by
+    rw [indicesSetOk_eq]; exact ((shape_split _ _ _).mp hsh2).1
+  have hdm : isSlashableData i = true := by rw [isSlashableData_eq_spec]; exact hd
+  -- some condition fails, and it is not one of the REJECT/LOCAL ones: the duplicate condition
+  have hseen : i.allSeen = true := by
+    cases hs : i.allSeen with
+    | true => rfl
+    | false =>
+      exfalso
+      have h5' : i.sig1 = true := by
+        rcases h5 with h | h
+        · rcases h with h | h; · rw [hhead] at h; cases h
+          · exact h
+        · cases h
+      have h6' : i.sig2 = true := by
+        rcases h6 with h | h
+        · rcases h with h | h; · rw [hhead] at h; cases h
+          · exact h
+        · cases h
+      have h7' : Spec.aslashAnySlashable i = true := by
+        rcases h7 with h | h
+        · rcases h with h | h; · rw [hhead] at h; cases h
+          · exact h
+        · cases h
+      simp [hs, hd, hhead, hsh1, hsh2, h5', h6', h7'] at hf
+  unfold validateAttesterSlashing
+  simp [hdm, hs1, hs2, hseen, ign]
+
+theorem aslash_marks_only_on_accept (i : ASlashIn) :
     (validateAttesterSlashing i).marks ≠ [] → (validateAttesterSlashing i).verdict = .ACCEPT := by
   fun_cases validateAttesterSlashing i
   all_goals (simp_all [ign, rej, acc])
@@ -784,6 +1066,7 @@ def aslashOk : ASlashIn :=
     vals := [(3, false, 0, 18446744073709551615), (5, false, 0, 18446744073709551615),
              (9, false, 0, 18446744073709551615), (11, false, 0, 18446744073709551615)],
     curEpoch := 3, sig1 := true, sig2 := true }
+example : WFASlash aslashOk := ⟨by decide⟩
 example : (validateAttesterSlashing aslashOk).verdict = .ACCEPT ∧ allHold (Spec.aslashConds aslashOk) = true ∧
     (validateAttesterSlashing aslashOk).marks = [call "MarkAttesterSlashings" [5, 9]] := by decide +kernel
 
